@@ -262,7 +262,7 @@ pub fn gen_case(rng: &mut Rng, fx: &Fixtures) -> Case {
         entry,
         original,
         events,
-        url_variant: rng.weighted(&[36, 26, 8, 8, 8, 10, 4]) as u8,
+        url_variant: rng.weighted(&[34, 24, 8, 8, 8, 8, 4, 6]) as u8,
         workload_seed: rng.next_u64(),
         full_workload: rng.chance(1, 10),
         script_text,
@@ -370,7 +370,23 @@ fn run_entry(c: &Case, d: &[u8], rdr: &mut SimReader, cx: &mut work::Ctx) -> Got
                     let odd = ["é", "€", "👌", "Ａ"][(c.workload_seed / 64 % 4) as usize];
                     format!("{}{}{}{}", &pre[..k], odd, &pre[k + 1..], zoo::base64(d))
                 }
-                _ => format!("DATA:application/JSON;BASE64,{}", zoo::base64(d)),
+                6 => format!("DATA:application/JSON;BASE64,{}", zoo::base64(d)),
+                _ => {
+                    // not base64 at all: the payload percent-encoded after a bare comma, whole or
+                    // cut off at a seeded length (possibly inside an escape)
+                    let mut u = String::from(if c.workload_seed % 2 == 0 { "data:application/json," } else { "data:application/json;charset=utf-8," });
+                    for &b in d.iter().take(400) {
+                        if b.is_ascii_alphanumeric() {
+                            u.push(b as char);
+                        } else {
+                            u.push_str(&format!("%{:02X}", b));
+                        }
+                    }
+                    let cut = (c.workload_seed / 7 % 12) as usize;
+                    let keep = u.len().saturating_sub(cut).max(22);
+                    u.truncate(keep.min(u.len()));
+                    u
+                }
             };
             take!(sourcemap::decode_data_url(&url), Got::Decoded)
         }
